@@ -40,6 +40,7 @@ func VerifC10_HTTPSenderWire() {
 		verif_Assume(perr == nil)
 		urls = append(urls, u)
 	}
+	rt := &c10rt{bodies: map[string][]byte{}, status: []int{200, 204}[verif_Choose("status", 0, 1)]}
 	opts := []Option{WithClient(&http.Client{Transport: rt})}
 	var extra []byte
 	if verif_Bool("extraData") {
